@@ -18,7 +18,7 @@
 //   lparams <x> <a_milli>                      -> "a=<bits> x13=.. v=.. y=.. z=.. c=.."
 //   alphas <x> <a_milli> <ay_milli> <az_milli> -> "<lmo bits> <dr bits> <gourdon ay bits> <gourdon az bits>"
 //   maxx_bits <bits>                           -> get_max_x(double) | UB (the double does not fit int128_t)
-//   setalpha <bits>                            -> "<lmo bits at 10^36>" after set_alpha(double) | UB
+//   setalpha <bits> [0|1|2]                    -> "<lmo | gourdon alpha_y | alpha_z bits at 10^36>" after set_alpha[_y|_z](double)
 //   fdiv64 <x> <d>                             -> fast_div64((uint128_t) x, (uint64_t) d) in a forked child | TRAP (SIGFPE)
 //   fdiv <x> <d>                               -> fast_div((uint128_t) x, (uint64_t) d)
 // A float -> integer cast whose operand is out of range is undefined: such casts are NOT executed here, the field
@@ -339,12 +339,16 @@ PCV_OP(setalpha)
 {
   AlphaGuardP g;
   double d = dfrom(a.at(0));
-  // set_alpha: `if (alpha < 1.0) alpha_ = -1; else alpha_ = truncate3(alpha)`, truncate3 casts alpha * 1000 to int64_t
-  if (!(d < 1.0) && !fits_i64(d * 1000)) return "UB";
-  set_alpha(d);
+  // every double is an input the public API accepts: the call is ALWAYS made (the sanitizer build reports a cast
+  // that leaves int64_t; the release build shows what the override became). Optional 2nd arg: 0 = set_alpha,
+  // 1 = set_alpha_y, 2 = set_alpha_z.
+  int which = a.size() > 1 ? (int) parse_i64(a.at(1)) : 0;
   int128_t x = 1;
   for (int i = 0; i < 36; i++) x *= 10;
-  return dbits(get_alpha_lmo(x));
+  if (which == 0) { set_alpha(d); return dbits(get_alpha_lmo(x)); }
+  if (which == 1) { set_alpha_y(d); return dbits(get_alpha_gourdon(x).first); }
+  set_alpha_z(d);
+  return dbits(get_alpha_gourdon(x).second);
 }
 
 PCV_OP(fdiv)
